@@ -322,11 +322,19 @@ func runFLD(args []string) (out string) {
 		return show(sse.ID(in), "nil", "")
 	case "utext-id", "utext-type":
 		f := recv()
-		err := f.UnmarshalText([]byte(in))
+		buf := []byte(in)
+		err := f.UnmarshalText(buf)
+		for i := range buf { // the value must not alias the caller's buffer
+			buf[i] = '\n'
+		}
 		return show(f, fieldErrClass(err), "")
 	case "json-id", "json-type":
 		f := recv()
-		err := f.UnmarshalJSON([]byte(in))
+		buf := []byte(in)
+		err := f.UnmarshalJSON(buf)
+		for i := range buf {
+			buf[i] = '\n'
+		}
 		return show(f, fieldErrClass(err), jsonDecoded([]byte(in)))
 	case "jsonstd-id", "jsonstd-type":
 		f := recv()
@@ -356,6 +364,10 @@ func runFLD(args []string) (out string) {
 			src = time.Time{}
 		}
 		err := f.Scan(src)
+		// the value must not alias the driver's buffer: a driver may reuse it for the next row
+		for i := range payload {
+			payload[i] = '\n'
+		}
 		return show(f, fieldErrClass(err), "")
 	case "hdr":
 		req := httptest.NewRequest(http.MethodGet, "/", nil)
@@ -408,7 +420,7 @@ func runFAM(args []string) string {
 			i := int(iu)
 			valid := true
 			switch k[0] {
-			case 'D', 'C', 'I', 'T', 'K':
+			case 'D', 'C', 'I', 'T', 'K', 'U':
 			case 'R':
 				_, e := strconv.ParseInt(v, 10, 64)
 				valid = e == nil
@@ -436,6 +448,13 @@ func runFAM(args []string) string {
 					msgApply(m, "r", v)
 				case 'K':
 					fam = append(fam, m.Clone())
+				case 'U':
+					// the caller reuses its Message for the next event; the text buffer is the caller's too
+					buf := unhx(v)
+					_ = m.UnmarshalText(buf)
+					for bi := range buf {
+						buf[bi] = '\n'
+					}
 				case 'P':
 					rep, _ := strconv.ParseUint(v, 10, 64)
 					r := reps[rep]
